@@ -82,6 +82,8 @@ var connScripts = map[string]struct {
 	"herr":      {[]string{"{\"method\":\"t.a.X\"}\x00"}, "half"},
 	"block":     {[]string{"{\"method\":\"t.a.B\"}\x00"}, "half"},
 	"idleclose": {nil, "close"},
+	// a Quit method: the handler calls Shutdown itself and then replies
+	"quit": {[]string{"{\"method\":\"t.a.SR\"}\x00"}, "half"},
 	"callhold":  {[]string{"{\"method\":\"t.a.R\"}\x00"}, "hold"},
 	// the same, but it connects only after every earlier connection has been handled to the end (the service has
 	// been idle in between)
@@ -295,6 +297,23 @@ func lcBody(d lcDesc) func() {
 				}
 				st.shutRet[k] = w.ev("shutdown-ret %d", k)
 			})
+		}
+		w.OnQuit = func() {
+			// Shutdown from inside a handler: recorded like a Shutdown thread's
+			k := len(st.shutStart)
+			st.shutStart = append(st.shutStart, 0)
+			st.shutRet = append(st.shutRet, 0)
+			st.shutPark = append(st.shutPark, -1)
+			st.shutRound = append(st.shutRound, -1)
+			stamp()
+			r := curRound()
+			st.shutRound[k] = r
+			if r >= 0 && st.Ls[r].Blocked() {
+				st.shutPark[k] = r
+			}
+			st.shutStart[k] = w.ev("shutdown-start %d round=%d parked=%d (from a handler)", k, r, st.shutPark[k])
+			w.S.Shutdown()
+			st.shutRet[k] = w.ev("shutdown-ret %d", k)
 		}
 		for i, cs := range d.Conns {
 			sc := connScripts[cs]
@@ -654,6 +673,13 @@ func scenariosC14(tier string) []Scen {
 			descs = append(descs, lcDesc{Conns: cs, Shutdowns: 1, Rounds: 2, OwnCtx: true})
 		}
 	}
+	// Shutdown from inside a handler (a Quit method), alone, next to other connections and next to a Shutdown thread
+	for _, cs := range [][]string{{"quit"}, {"quit", "call"}, {"quit", "callhold"}, {"callhalf", "quit"}, {"quit", "quit"}} {
+		for _, sd := range []int{0, 1} {
+			descs = append(descs, lcDesc{Conns: cs, Shutdowns: sd, Rounds: 1})
+		}
+	}
+	descs = append(descs, lcDesc{Conns: []string{"quit"}, Shutdowns: 1, Rounds: 2}, lcDesc{Conns: []string{"quit"}, Shutdowns: 0, Rounds: 1, Timeout: true, Fires: 1})
 	descs = withVia(descs)
 	var out []Scen
 	for _, d := range descs {
